@@ -300,6 +300,17 @@ func (m *SimpleMVCC) GetV(key []byte, version int64) ([]byte, error) {
 	if err != nil {
 		return nil, err
 	}
+	// records of this key are exactly len(search) long; a longer record inside the prefix range
+	// belongs to another key that extends key+".": continue below its cluster
+	for len(vals) == 2 && len(vals[0]) > len(search) {
+		vals, err = m.kvdb.List(prefix, vals[0][:len(search)], 1, ListSeek)
+		if err != nil {
+			return nil, err
+		}
+	}
+	if len(vals) != 2 || len(vals[0]) != len(search) {
+		return nil, types.ErrNotFound
+	}
 	k := vals[0]
 	val := vals[1]
 	v, err := getVersion(k)
